@@ -5,6 +5,7 @@ use serde_json::Value;
 pub mod c01;
 pub mod c02;
 pub mod c05;
+pub mod c06;
 pub mod c08;
 pub mod c12;
 pub mod c17;
@@ -37,6 +38,7 @@ pub fn get(id: &str) -> Option<Prop> {
         "C01" => Some(c01::prop()),
         "C02" => Some(c02::prop()),
         "C05" => Some(c05::prop()),
+        "C06" => Some(c06::prop()),
         "C08" => Some(c08::prop()),
         "C12" => Some(c12::prop()),
         "C17" => Some(c17::prop()),
